@@ -162,6 +162,40 @@ Basket3Genesis ==
      !.csupply  = @ \cup {[d |-> BasketDenomOf("C", "NCT"), n |-> 3]},
      !.seq      = [@ EXCEPT !.project = 2]]
 
+\* an open sell order of a1 (2 credits at ask 3 uregen, auto-retire optional) under a
+\* SELLER-ONLY fee schedule, and under a BUYER-ONLY one with a stored zero seller rate
+OrderGenesis(b, sl) ==
+  [MarketGenesis EXCEPT
+     !.bal     = {[a |-> "a1", bk |-> 1, t |-> 1, r |-> 0, e |-> 2],
+                  [a |-> "a2", bk |-> 1, t |-> 1, r |-> 1, e |-> 0]},
+     !.orders  = {[id |-> 1, seller |-> "a1", bk |-> 1, qty |-> 2, mid |-> 1, ask |-> 3, dar |-> TRUE,
+                   exp |-> NoTime, maker |-> TRUE]},
+     !.markets = {[id |-> 1, ct |-> "C", denom |-> "uregen"]},
+     !.seq     = [@ EXCEPT !.order = 1, !.market = 1],
+     !.feeparams = [buyer |-> b, seller |-> sl]]
+
+\* expiry family: two batches, two markets (uregen = 1, uatom = 2); a1 and a2 have open
+\* orders with expirations 8 and 9, one of them for batch 2 on market 1 and one for
+\* batch 1 on market 2 (market id # batch key)
+ExpiryGenesis ==
+  [MarketGenesis EXCEPT
+     !.batches = @ \cup {[key |-> 2, issuer |-> "a1", pk |-> 1,
+                           denom |-> BatchDenomOf("C01-001", 3, 8, 2), meta |-> "m0",
+                           start |-> 3, end |-> 8, issued |-> 6, open |-> TRUE, ck |-> 0]},
+     !.bseq    = {[pk |-> 1, next |-> 3]},
+     !.bal     = {[a |-> "a1", bk |-> 1, t |-> 1, r |-> 0, e |-> 2],
+                  [a |-> "a1", bk |-> 2, t |-> 1, r |-> 1, e |-> 1],
+                  [a |-> "a2", bk |-> 1, t |-> 1, r |-> 1, e |-> 1]},
+     !.supply  = {[bk |-> 1, t |-> 5, r |-> 1, c |-> 0], [bk |-> 2, t |-> 2, r |-> 1, c |-> 0]},
+     !.orders  = {[id |-> 1, seller |-> "a1", bk |-> 1, qty |-> 2, mid |-> 2, ask |-> 2, dar |-> TRUE,
+                   exp |-> SomeTime(8), maker |-> TRUE],
+                  [id |-> 2, seller |-> "a1", bk |-> 2, qty |-> 1, mid |-> 1, ask |-> 1, dar |-> FALSE,
+                   exp |-> SomeTime(9), maker |-> TRUE],
+                  [id |-> 3, seller |-> "a2", bk |-> 1, qty |-> 1, mid |-> 1, ask |-> 3, dar |-> TRUE,
+                   exp |-> NoTime, maker |-> TRUE]},
+     !.markets = {[id |-> 1, ct |-> "C", denom |-> "uregen"], [id |-> 2, ct |-> "C", denom |-> "uatom"]},
+     !.seq     = [@ EXCEPT !.batch = 2, !.order = 3, !.market = 2]]
+
 GenesisState ==
   CASE Genesis = "default" -> DefaultGenesis
     [] Genesis = "class"   -> ClassGenesis
@@ -173,6 +207,9 @@ GenesisState ==
     [] Genesis = "bridge"  -> BridgeGenesis
     [] Genesis = "fee"     -> FeeGenesis
     [] Genesis = "zerofee" -> ZeroFeeGenesis
+    [] Genesis = "expiry"  -> ExpiryGenesis
+    [] Genesis = "sellerfee" -> OrderGenesis(RateEmpty, Rate(1, 2))
+    [] Genesis = "buyerfee"  -> OrderGenesis(Rate(1, 4), RateZero)
 
 \* ------------------------------------------------------------------ message domains
 BatchDenoms(s) == {b.denom : b \in s.batches} \cup {"C09-001-19700315-19700527-001"}
